@@ -19,10 +19,11 @@ PLAN = {
                 "(counting equally likely draw sequences). sample_rate and Drain::drop are complete over all (pushed, capacity) in usize^2; the "
                 "slice-touching contracts are checked for capacity <= 4 (the capacity only sizes the slice) and are listed as bounded.",
         "note": "Trusted: rand's random_range(0..upper) is uniform on [0, upper) and panics iff upper == 0 (stub contract); SC atomics; "
-                "sequential histories only (pushes racing a drain into the retired side are lost by design and not decided); count < usize::MAX.",
+                "sequential histories only (pushes racing a drain into the retired side are lost by design; only the one clause 'the side is empty after the drain' is decided for them (c16_drop_after_late_push)); count < usize::MAX.",
     },
     "min_obligations": {"quick": 5, "thorough": 5},
     "assumptions": [
+        "in the Kani harnesses fastrand(upper) is replaced by a stub carrying its contract; the real fastrand is checked against that contract by Verus (fastrand.verus.rs: requires upper > 0, ensures r < upper) with R32 (`unsafe { &mut *cell.get() }` -> shim) and LocalKey::with / Rng::random_range as assumed contracts",
         "fastrand(upper) is replaced by a stub carrying rand::Rng::random_range's contract: requires upper > 0 (rand panics on an empty range), "
         "returns an arbitrary r < upper; uniformity/independence of the thread-local Xoshiro256** stream is assumed, not verified",
         "precondition of push: fewer than usize::MAX pushes since the last drain (idx + 1 must not overflow; 2^64 pushes are unreachable in practice)",
@@ -39,6 +40,8 @@ PLAN = {
     "verus": [
         # spec-level lemma (no source items): kept(c,i,n)/hist(c,n) == c/n for every position i <= n, n >= c, by induction
         {"template": "uniform.verus.rs", "tier": "quick", "rlimit": 30, "min_functions": 2},
+        # the real `fastrand` against the contract the Kani harnesses assume for it (rand's random_range as dependency contract)
+        {"template": "fastrand.verus.rs", "tier": "quick", "rlimit": 30, "min_functions": 1},
     ],
     "kani": [{
         "crate": "metrics-util",
@@ -68,6 +71,9 @@ PLAN = {
             H("c16_rate_and_reset",
               "for all (pushed, capacity) in usize^2: sample_rate == min(pushed,capacity)/pushed (1.0 when pushed <= capacity), in [0,1]; Drain::drop sets count to 0",
               kind="complete", covers=2),
+            H("c16_drop_after_late_push",
+              "for all (pushed, late, capacity): with `late` pushes landing on the retired side between drain() and Drain::drop, the side is empty (count == 0) after the drop",
+              kind="complete", covers=0),
             H("c16_cycles",
               "two push/drain cycles + an empty third drain: only values of the current cycle are yielded, <= capacity, all (in order) when <= capacity pushed, "
               "rate == yielded/pushed, next drain starts empty",
